@@ -140,7 +140,10 @@ def nothing_to_do(top):
             return False
     else:
         empty = any(lift.emptiness(c) is False for c in top.conds)
-        if not empty:
+        # ... or because the oldest entry of the deadline-ordered ttl list is still alive: nothing has expired
+        head_alive = any(c[0] == 'EXPIRED' and c[2] is False and isinstance(c[1][0], Ent) and c[1][0].kind in ('FRONT', 'AUXHEAD', 'AUXHEADNODE')
+                         and (c[1][0].epoch or 0) == 0 for c in top.conds)
+        if not empty and not head_alive:
             return False
     r = top.ret
     if r == ('int', 0):
